@@ -22,6 +22,7 @@ class SpecialAdapter(Adapter):
     name = "PhystSpecial"
 
     def __init__(self, redges, zedges, nphi, ntheta, scale=1.0, negzero=False, spelling=0):
+        self._re_int = [int(e) for e in redges]
         self.redges = [float(e) * scale for e in redges]
         self.zedges = [float(e) * scale for e in zedges]
         self.nphi, self.ntheta, self.scale, self.negzero, self.spelling = nphi, ntheta, scale, negzero, spelling
@@ -252,7 +253,7 @@ class SpecialAdapter(Adapter):
         if len(p) == 3 and p[2] != 0 and p[2] * p[2] == p[0] * p[0] + p[1] * p[1]:
             kinds.append("cone")
         r2 = sum(c * c for c in p)
-        if any(abs(r2 - (e / self.scale) ** 2) < 1e-9 for e in self.redges):
+        if any(r2 == e * e for e in self._re_int):
             kinds.append("on-r-edge")
         quad = ("+" if p[0] >= 0 else "-") + ("+" if p[1] >= 0 else "-") + (("+" if p[2] >= 0 else "-") if len(p) == 3 else "")
         return (",".join(kinds) or "generic") + "/" + quad
